@@ -67,6 +67,9 @@ type bundleOpts struct {
 	extraLit        func(g *bundleGen, t ty) (string, bool)                 // consulted first by lit()
 	extraDirectives []string                                                // more print directive suffixes
 	noLog           bool                                                    // no {log} commands
+	extraExpr       func(e *scopedExprGen, depth int, t ty) (string, bool)  // consulted first by expr()
+	extraValue      func(g *bundleGen, t ty) (interface{}, bool)            // consulted first by valueOf()
+	allParams       bool                                                    // dataFor supplies optional params too
 }
 
 func typeOfName(n string) ty {
@@ -204,6 +207,11 @@ func (e *scopedExprGen) atom(t ty) string {
 
 func (e *scopedExprGen) expr(depth int, t ty) string {
 	r := e.g.r
+	if e.g.opts.extraExpr != nil {
+		if s, ok := e.g.opts.extraExpr(e, depth, t); ok {
+			return s
+		}
+	}
 	if depth <= 0 || r.Intn(3) == 0 {
 		return e.atom(t)
 	}
@@ -382,7 +390,17 @@ func (g *bundleGen) cmd(s *gScope, depth int) string {
 		}
 		kw := []string{"foreach", "for"}[r.Intn(2)]
 		out := "{" + kw + " $" + name + " in " + list + "}" + body
-		if r.Intn(3) == 0 {
+		shadows := false
+		if g.opts.jsSafe {
+			// soyjs translates {ifempty} inside the loop's scope frame: an outer variable with the loop
+			// variable's name is hidden there (C04 finding c04:ifempty-sees-loop-var, kept as a hand case)
+			for _, v := range s.vars {
+				if v.name == name {
+					shadows = true
+				}
+			}
+		}
+		if r.Intn(3) == 0 && !shadows {
 			out += "{ifempty}" + g.block(s, depth-1)
 		}
 		return out + "{/" + kw + "}"
@@ -462,7 +480,7 @@ func (g *bundleGen) call(s *gScope, depth int) string {
 	}
 	var params []string
 	for _, p := range callee.params {
-		if p.optional && g.r.Intn(3) == 0 {
+		if p.optional && !g.opts.allParams && g.r.Intn(3) == 0 {
 			continue
 		}
 		if p.t == tStr && g.r.Intn(3) == 0 {
@@ -508,7 +526,11 @@ func (g *bundleGen) msg(s *gScope) string {
 		for i := 0; i < n; i++ {
 			switch g.r.Intn(4) {
 			case 0:
-				b.WriteString([]string{"Hello ", "<b>", "</b>", "<br/>", "a&b ", "<a href=\"x\">"}[g.r.Intn(6)])
+				tags := []string{"Hello ", "<b>", "</b>", "<br/>", "a&b ", "<a href=\"x\">"}
+				if g.opts.jsSafe {
+					tags[5] = "<a href='x'>" // a double quote is escaped differently by the two backends (c04:escapeHtml-double-quote)
+				}
+				b.WriteString(tags[g.r.Intn(6)])
 			default:
 				b.WriteString(g.print(s, 1) + " ")
 			}
@@ -549,7 +571,19 @@ func (g *bundleGen) template(f *gFile, short string) *gTemplate {
 	// every param must be used (a param shadowed by a top-level let cannot be referenced after it: put the use first)
 	for i, p := range t.params {
 		if !s.used[i] {
-			body = "{$" + p.name + "}" + body
+			use := "{$" + p.name + "}"
+			if g.opts.jsSafe {
+				// printing a list, a map or null is outside the subset both backends define
+				switch p.t {
+				case tList:
+					use = "{length($" + p.name + ")}"
+				case tMap:
+					use = "{$" + p.name + ".a}"
+				case tNull:
+					use = "{$" + p.name + " ?: 'n'}"
+				}
+			}
+			body = use + body
 		}
 	}
 	t.body = body
@@ -643,7 +677,7 @@ func (f *gFile) source() string {
 func (g *bundleGen) dataFor(t *gTemplate) map[string]interface{} {
 	m := map[string]interface{}{}
 	for _, p := range t.params {
-		if p.optional && g.r.Intn(3) == 0 {
+		if p.optional && !g.opts.allParams && g.r.Intn(3) == 0 {
 			continue
 		}
 		m[p.name] = g.valueOf(p.t)
@@ -656,6 +690,11 @@ func (g *bundleGen) dataFor(t *gTemplate) map[string]interface{} {
 
 func (g *bundleGen) valueOf(t ty) interface{} {
 	r := g.r
+	if g.opts.extraValue != nil {
+		if v, ok := g.opts.extraValue(g, t); ok {
+			return v
+		}
+	}
 	switch t {
 	case tInt:
 		return int64([]int{0, 1, 2, 3, 7, -1, 12, 1 << 40}[r.Intn(8)])
